@@ -1136,6 +1136,11 @@ func (h *handler) handle(ctx context.Context, nextCid cid.Cid, sel ipld.Node, sy
 	hook := func(p peer.ID, c cid.Cid) {
 		syncedCount++
 		if bh != nil {
+			// Where a segmented sync continues is decided by the hook call
+			// for the last block of a segment. What the call for an earlier
+			// block of the segment named is a block that this segment has
+			// synced itself.
+			segSync.nextSyncCid = nil
 			bh(p, c, segSync)
 		}
 	}
